@@ -89,6 +89,9 @@ class Tmatrix(ScatteringTheory):
 
         med_wavelen = 2*np.pi/medium_wavevec
         if isinstance(scatterer, Sphere):
+            if np.ndim(scatterer.n) or np.ndim(scatterer.r):
+                # (can_handle says the same; calc_scat_matrix does not ask it)
+                raise TheoryNotCompatibleError(self, scatterer)
             rxy = scatterer.r
             rz = scatterer.r
             iscyl = False
